@@ -2,6 +2,7 @@ import LexgenModel.Model.Compile
 import LexgenModel.Exec.Bisim
 import LexgenModel.Exec.MachineWF
 import LexgenModel.Model.TableGen
+import LexgenModel.Model.Parser
 /-!
 # `lexmodel`: line-protocol driver of the executable model (correspondence side; no proofs here)
 -/
@@ -385,6 +386,41 @@ def tableGenLine (toks : List String) : String :=
   let f : Nat → Bool := fun c => (bs.filter (· ≤ c)).length % 2 == 1
   " ".intercalate ((generateRanges f charMax).map fun (s, e) => s!"{s} {e}")
 
+/-- regex in the dump token syntax -/
+partial def showRegex : Regex → String
+  | .builtin n => s!"bi {n}"
+  | .var n => s!"var {n}"
+  | .chr c => s!"chr {c}"
+  | .str cs => " ".intercalate (["str", toString cs.length] ++ cs.map toString)
+  | .set items => " ".intercalate (["set", toString items.length] ++ items.map fun
+      | .chr c => s!"c {c}"
+      | .rng a b => s!"r {a} {b}")
+  | .star r => "star " ++ showRegex r
+  | .plus r => "plus " ++ showRegex r
+  | .opt r => "opt " ++ showRegex r
+  | .cat a b => "cat " ++ showRegex a ++ " " ++ showRegex b
+  | .alt a b => "alt " ++ showRegex a ++ " " ++ showRegex b
+  | .any => "any"
+  | .eoi => "eoi"
+  | .diff a b => "diff " ++ showRegex a ++ " " ++ showRegex b
+
+def parseTok (w : String) : Tok :=
+  if w = "(" then .lparen else if w = ")" then .rparen else if w = "[" then .lbracket else if w = "]" then .rbracket
+  else if w = "$" then .dollar else if w = "_" then .underscore else if w = "|" then .bar else if w = "*" then .star
+  else if w = "+" then .plus else if w = "?" then .question else if w = "#" then .pound else if w = "-" then .minus
+  else if w.startsWith "id:" then .ident (w.drop 3).toString
+  else if w.startsWith "c:" then .chr (toNat! (w.drop 2).toString)
+  else if w.startsWith "s:" then .str ((((w.drop 2).toString.splitOn ",").filter (· ≠ "")).map toNat!)
+  else .other w
+
+/-- `PARSE <tokens>`: the parser model on a token list; succeeds when the regex is followed by
+nothing or by a non-regex token -/
+def parseLine (toks : List String) : String :=
+  match parseRegex (toks.map parseTok) with
+  | some (r, []) => "ok " ++ showRegex r
+  | some (r, .other _ :: _) => "ok " ++ showRegex r
+  | _ => "err"
+
 /-! ## Main loop -/
 
 def splitOnBar (line : String) : List (List String) := (line.splitOn ";").map words
@@ -456,6 +492,8 @@ def main : IO Unit := do
       for l in runCase prog pd dump model line do stdout.putStrLn l
     else if line.startsWith "RM " then
       stdout.putStrLn ("RM " ++ rangeMapLine (line.drop 3).toString)
+    else if line.startsWith "PARSE" then
+      stdout.putStrLn ("PARSE " ++ parseLine (words (line.drop 5).toString))
     else if line.startsWith "TG" then
       stdout.putStrLn ("TG " ++ tableGenLine (words (line.drop 2).toString))
     else if line = "COMPILE" then
